@@ -653,6 +653,25 @@ func (e *CoreExtension) functionDate(args ...interface{}) (interface{}, error) {
 			dt = time.Unix(int64(v), 0)
 		case float64:
 			dt = time.Unix(int64(v), 0)
+		case *time.Time:
+			if v != nil {
+				dt = *v
+			}
+		default:
+			// Timestamps of the other numeric kinds (int32, uint64, float32 ...);
+			// anything else is not a date (the current time instead would hide
+			// the mistake and give a different result on every call)
+			rv := reflect.ValueOf(args[0])
+			switch rv.Kind() {
+			case reflect.Int, reflect.Int8, reflect.Int16, reflect.Int32, reflect.Int64:
+				dt = time.Unix(rv.Int(), 0)
+			case reflect.Uint, reflect.Uint8, reflect.Uint16, reflect.Uint32, reflect.Uint64:
+				dt = time.Unix(int64(rv.Uint()), 0)
+			case reflect.Float32, reflect.Float64:
+				dt = time.Unix(int64(rv.Float()), 0)
+			default:
+				return nil, fmt.Errorf("date function: cannot use %T as a date", args[0])
+			}
 		}
 	}
 
